@@ -226,7 +226,9 @@ impl St {
                 // par_drain: full or with an early stop
                 let n_total;
                 let delivered: Vec<u32>;
-                let early = stop % 3 != 0;
+                // one drain in five: the consumer panics at the limit-th item (an early stop by unwinding)
+                let panics = a[3] % 5 == 4;
+                let early = stop % 3 != 0 || panics;
                 let limit = if early { 1 + (stop as usize / 3) % 64 } else { usize::MAX };
                 let serials_before: Vec<u32>;
                 let what;
@@ -234,6 +236,26 @@ impl St {
                     ($par:expr, $id:expr) => {{
                         let sink = Mutex::new(Vec::new());
                         let cnt = AtomicUsize::new(0);
+                        if panics {
+                            // the consumer panics once `limit` items were seen; rayon re-raises the panic in
+                            // the caller when the other workers have finished
+                            let r = std::panic::catch_unwind(std::panic::AssertUnwindSafe(|| {
+                                p.install(|| {
+                                    $par.for_each(|x| {
+                                        sink.lock().unwrap_or_else(|e| e.into_inner()).push($id(&x));
+                                        if cnt.fetch_add(1, Ordering::SeqCst) + 1 == limit {
+                                            drop(x);
+                                            std::panic::panic_any(world::Injected);
+                                        }
+                                    })
+                                })
+                            }));
+                            if let Err(e) = r {
+                                if e.downcast_ref::<world::Injected>().is_none() {
+                                    std::panic::resume_unwind(e);
+                                }
+                            }
+                        } else {
                         p.install(|| {
                             if !early {
                                 $par.for_each(|x| sink.lock().unwrap().push($id(&x)));
@@ -252,7 +274,8 @@ impl St {
                                 drop(f);
                             }
                         });
-                        sink.into_inner().unwrap()
+                        }
+                        sink.into_inner().unwrap_or_else(|e| e.into_inner())
                     }};
                 }
                 match kind {
@@ -309,7 +332,8 @@ impl St {
             }
             7 | 8 => {
                 // into_par_iter: full or early stop
-                let early = stop % 2 == 1;
+                let ipanics = a[3] % 5 == 4;
+                let early = stop % 2 == 1 || ipanics;
                 let limit = 1 + (stop as usize / 2) % 64;
                 let (n_total, serials, delivered): (usize, Vec<u32>, Vec<u32>);
                 let alloc = self.alloc.clone();
@@ -320,7 +344,27 @@ impl St {
                     self.m_map.clear();
                     serials = old.keys().map(|k| k.serial).collect();
                     let cnt = AtomicUsize::new(0);
-                    delivered = p.install(|| {
+                    delivered = if ipanics {
+                        // the consumer panics at the limit-th item: everything is still dropped exactly once
+                        let sink = Mutex::new(Vec::new());
+                        let r = std::panic::catch_unwind(std::panic::AssertUnwindSafe(|| {
+                            p.install(|| {
+                                old.into_par_iter().for_each(|x| {
+                                    sink.lock().unwrap_or_else(|e| e.into_inner()).push(x.0.id);
+                                    if cnt.fetch_add(1, Ordering::SeqCst) + 1 == limit {
+                                        drop(x);
+                                        std::panic::panic_any(world::Injected);
+                                    }
+                                })
+                            })
+                        }));
+                        if let Err(e) = r {
+                            if e.downcast_ref::<world::Injected>().is_none() {
+                                std::panic::resume_unwind(e);
+                            }
+                        }
+                        sink.into_inner().unwrap_or_else(|e| e.into_inner())
+                    } else { p.install(|| {
                         if early {
                             let sink = Mutex::new(Vec::new());
                             let f = old.into_par_iter().find_any(|x| {
@@ -332,14 +376,34 @@ impl St {
                         } else {
                             old.into_par_iter().map(|(k, _)| k.id).collect()
                         }
-                    });
+                    }) };
                 } else {
                     let old = std::mem::replace(&mut self.table, PTable::new_in(alloc));
                     n_total = self.m_table.len();
                     self.m_table.clear();
                     serials = old.iter().map(|k| k.serial).collect();
                     let cnt = AtomicUsize::new(0);
-                    delivered = p.install(|| {
+                    delivered = if ipanics {
+                        // the consumer panics at the limit-th item: everything is still dropped exactly once
+                        let sink = Mutex::new(Vec::new());
+                        let r = std::panic::catch_unwind(std::panic::AssertUnwindSafe(|| {
+                            p.install(|| {
+                                old.into_par_iter().for_each(|x| {
+                                    sink.lock().unwrap_or_else(|e| e.into_inner()).push(x.id);
+                                    if cnt.fetch_add(1, Ordering::SeqCst) + 1 == limit {
+                                        drop(x);
+                                        std::panic::panic_any(world::Injected);
+                                    }
+                                })
+                            })
+                        }));
+                        if let Err(e) = r {
+                            if e.downcast_ref::<world::Injected>().is_none() {
+                                std::panic::resume_unwind(e);
+                            }
+                        }
+                        sink.into_inner().unwrap_or_else(|e| e.into_inner())
+                    } else { p.install(|| {
                         if early {
                             let sink = Mutex::new(Vec::new());
                             let f = old.into_par_iter().find_any(|x| {
@@ -351,7 +415,7 @@ impl St {
                         } else {
                             old.into_par_iter().map(|k| k.id).collect()
                         }
-                    });
+                    }) };
                 }
                 if early && !delivered.is_empty() && delivered.len() < n_total {
                     self.labels |= dump::L_X1;
